@@ -5,6 +5,7 @@ from sa.engine.api import *
 from sa.rules._helpers_C import strip
 
 UNITS = ["index/coinstatsindex.cpp", "index/base.cpp"]
+INDEX_UNITS = ["index/base.cpp", "index/coinstatsindex.cpp", "index/txindex.cpp", "index/blockfilterindex.cpp", "index/txospenderindex.cpp"]
 EXPLANATION = ("SYMMETRY between CoinStatsIndex::CustomAppend and CoinStatsIndex::RevertBlock: every MuHash operation of one function (ApplyCoinHash / "
                "RemoveCoinHash with its fully resolved outpoint and coin arguments, the loops it sits in and its in-loop condition) is extracted and must "
                "have exactly one counterpart in the other function with the inverse operation, the same iteration space, an equivalent condition and the "
@@ -457,9 +458,117 @@ def base_index(ctx, P):
                ok, s.where, None if ok else {"counterexample": cex, "unbound": un[:10], "path_condition": F.fshow(fm)[:900]})
 
 
+# --------------------------------------------------------------------------------------------------
+class AltFlow(Flow):
+    """Path-sensitive label flow: the state is a set of alternatives (one label set per class of paths; joins take the union)."""
+
+    def __init__(self, fn, P, marks=(), kills=(), branch_marks=()):
+        super().__init__(fn, P)
+        self.marks, self.kills, self.branch_marks = list(marks), list(kills), list(branch_marks)
+        self.watch, self.events = None, []
+
+    def initial(self):
+        return frozenset([frozenset()])
+
+    def join(self, a, b):
+        return a | b
+
+    def on_expr(self, state, e, stmt):
+        if self.watch is not None and self.watch(e):
+            self.events.append((e, state, stmt))
+        for label, pred in self.kills:
+            if pred(e):
+                state = frozenset(alt - {label} for alt in state)
+        for label, pred in self.marks:
+            if pred(e):
+                state = frozenset(alt | {label} for alt in state)
+        return state
+
+    def refine(self, state, atom, pol):
+        for label, pred, p in self.branch_marks:
+            if p == pol and pred(atom):
+                state = frozenset(alt | {label} for alt in state)
+        return state
+
+
+SET_BEST = lambda e: is_expr(e) and e[0] in ("mcall", "vcall") and e[1] == "BaseIndex::SetBestBlockIndex"
+IS_PROCESS = lambda e: is_expr(e) and e[0] in ("mcall", "vcall") and e[1] == "BaseIndex::ProcessBlock"
+
+
+def best_block(ctx, P):
+    """Where the index's notion of 'indexed up to here' may come from."""
+    from sa.rules._helpers_C import naming_x
+    PX = ctx.program(INDEX_UNITS)
+    callers = {}
+    for q, fl in PX.funcs.items():
+        for fn in fl:
+            if fn.body is None or q == "BaseIndex::SetBestBlockIndex":
+                continue
+            n = sum(1 for _, e in all_exprs(fn.body) for x in subexprs(e) if SET_BEST(x))
+            if n:
+                callers[q] = n
+    want = {"BaseIndex::Init", "BaseIndex::Sync", "BaseIndex::Rewind", "BaseIndex::BlockConnected"}
+    ctx.ob("BestBlock/callers", "WHO-MAY-CALL", "within the index sources SetBestBlockIndex is called only from BaseIndex::Init, Sync, Rewind and BlockConnected", set(callers) == want,
+           None, {"callers": callers})
+    # ---- Init: nullptr for an empty locator, otherwise exactly the block named by the locator's top hash
+    f = ctx.used(P.fn("BaseIndex::Init"))
+    subst = naming_x(f, P)
+    ss = sites(f, SET_BEST, P)
+    ctx.floor("Init SetBestBlockIndex sites", len(ss), 1)
+    LOC = r"BaseIndex::GetDB\(\)\.ReadBestBlock\(\)"
+    TOP = re.compile(r"^m_chainstate\.m_blockman\.LookupBlockIndex\(%s\.vHave(\.at\(0\)|\.front\(\)|\[0\])\)$" % LOC)
+    kinds = set()
+    for s in ss:
+        a = show(F.expand(strip(call_args(s.expr)[0]), subst))
+        fm = s.formula(subst)
+        null_atoms = [x for x in F.atoms(fm) if re.fullmatch(LOC + r"\.IsNull\(\)", x)]
+        if a == "nullptr":
+            ok = len(null_atoms) == 1 and F.implies(fm, F.atom(null_atoms[0]))
+            kinds.add("null")
+            text = "BaseIndex::Init resets the best block to nullptr only when the persisted locator is empty"
+        else:
+            found = [x for x in F.atoms(fm) if TOP.match(x)]
+            ok = TOP.match(a) is not None and len(null_atoms) == 1 and F.implies(fm, F.mk_not(F.atom(null_atoms[0]))) and len(found) == 1 and F.implies(fm, F.atom(found[0]))
+            kinds.add("top")
+            text = ("BaseIndex::Init sets the best block to exactly the block looked up from the persisted locator's top hash (found in the block index) - never to a "
+                    "block chosen through the active chain (fork point / tip), so that stale blocks are rewound by Sync")
+        ctx.ob("BestBlock/Init@L%s" % s.line, "PROVENANCE", text, ok, s.where, None if ok else {"argument": a, "condition": F.fshow(fm)[:400]})
+    ctx.ob("BestBlock/Init-cases", "PROVENANCE", "BaseIndex::Init handles both the empty-locator and the stored-locator case", kinds == {"null", "top"}, f.where)
+    # ---- Sync: the block marked best is the stored best block or a block whose ProcessBlock succeeded
+    sy = P.fn("BaseIndex::Sync")
+    ss = sites(sy, SET_BEST, P)
+    ctx.floor("Sync SetBestBlockIndex sites", len(ss), 1)
+    locs = {strip(call_args(s.expr)[0])[1] if strip(call_args(s.expr)[0])[0] == "local" else None for s in ss}
+    if len(locs) != 1 or None in locs:
+        raise AnalysisBroken("BaseIndex::Sync: SetBestBlockIndex arguments are not one local")
+    v = next(iter(locs))
+    vals = local_values(sy, v)
+    okv = bool(vals) and show(strip(vals[0][1])).startswith("m_best_block_index.load(") and all(is_expr(x) and x[0] == "local" for _, x in vals[1:])
+    is_asg = lambda e: e[0] == "b" and e[1] in ASSIGN_OPS and e[2] == ["local", v]
+    fl = AltFlow(sy, P, marks=[("stored", lambda e: e[0] == "mcall" and e[1] == "std::atomic::load" and show(e[2]) == "m_best_block_index")],
+                 kills=[("stored", is_asg), ("processed", is_asg)],
+                 branch_marks=[("processed", lambda a: IS_PROCESS(a) and strip(call_args(a)[0]) == ["local", v], True)])
+    fl.watch = SET_BEST
+    fl.run()
+    for e, state, st in fl.events:
+        ok = okv and all(("stored" in alt) or ("processed" in alt) for alt in state)
+        ctx.ob("BestBlock/Sync@L%s" % st.get("l"), "ORDER", "in the sync loop the best block is set to the stored best block or to a block whose ProcessBlock succeeded since it "
+               "became the current block (on every path)", ok, "%s:%s" % (sy.file, st.get("l")), None if ok else {"paths": [sorted(alt) for alt in state], "values": [(l, show(x)) for l, x in vals]})
+    ctx.floor("Sync SetBestBlockIndex events", len(fl.events), 1)
+    # ---- BlockConnected: the connected block, after it was processed
+    bc = P.fn("BaseIndex::BlockConnected")
+    for s in sites(bc, SET_BEST, P):
+        fm = s.formula(None)
+        a = strip(call_args(s.expr)[0])
+        ats = [x for x in F.atoms(fm) if x.startswith("BaseIndex::ProcessBlock(%s" % show(a))]
+        ok = a[0] == "param" and len(ats) == 1 and F.implies(fm, F.atom(ats[0]))
+        ctx.ob("BestBlock/BlockConnected@L%s" % s.line, "ORDER", "BlockConnected marks the connected block as best only after ProcessBlock of that block succeeded", ok, s.where)
+
+
 def check(ctx):
     P = ctx.program(UNITS)
     symmetry(ctx, P)
     field_tables(ctx, P)
     append_guard(ctx, P)
     base_index(ctx, P)
+    best_block(ctx, P)
